@@ -528,6 +528,40 @@ func (s *c06State) exec(f []string) string {
 			out = append(out, s.rec(t))
 		}
 		return strings.Join(out, " ")
+	case "mget":
+		// one Get request over three swamp entries: this swamp, a swamp that was never created, this swamp again
+		ghost := sw + "-never"
+		req := &hydrapb.GetRequest{Swamps: []*hydrapb.GetSwamp{{IslandID: island, SwampName: sw, Keys: f[1:]},
+			{IslandID: island, SwampName: ghost, Keys: f[1:]}, {IslandID: island, SwampName: sw, Keys: f[1:]}}}
+		resp, err := gw.Get(ctx, c06Wire(req, &hydrapb.GetRequest{}))
+		if err != nil {
+			return c06Err(err)
+		}
+		if resp == nil {
+			return "nilnil"
+		}
+		resp = c06Wire(resp, &hydrapb.GetResponse{})
+		out := []string{"mget"}
+		for i, gs := range resp.Swamps {
+			if i > 0 {
+				out = append(out, "/")
+			}
+			want := sw
+			if i == 1 {
+				want = ghost
+			}
+			if gs.SwampName != want {
+				out = append(out, "?name")
+			}
+			if !gs.IsExist {
+				out = append(out, "noswamp")
+				continue
+			}
+			for _, t := range gs.Treasures {
+				out = append(out, s.rec(t))
+			}
+		}
+		return strings.Join(out, " ")
 	case "getall":
 		resp, err := gw.GetAll(ctx, c06Wire(&hydrapb.GetAllRequest{IslandID: island, SwampName: sw}, &hydrapb.GetAllRequest{}))
 		if err != nil {
@@ -1257,8 +1291,10 @@ func c06RandOp(rng *rand.Rand, meta bool) string {
 			items = append(items, c06Item(rng, k, meta && rng.Intn(3) == 0))
 		}
 		return "set " + co + " " + strings.Join(items, " ")
-	case r < 34:
+	case r < 32:
 		return "get " + strings.Join(c06SomeKeys(rng, 3), " ")
+	case r < 34:
+		return "mget " + strings.Join(c06SomeKeys(rng, 3), " ")
 	case r < 38:
 		return "getall"
 	case r < 42:
